@@ -182,8 +182,11 @@ fn mul_case(rng: &mut Rng, out: &mut CaseOut) {
         3 => 65535,
         _ => rng.next_u64() as u16,
     };
-    // canaries before and after the slice handed to mul
-    let mut buf = vec![[0u8; 64]; blocks + 2];
+    // canaries before and after the slice handed to mul (they catch stray
+    // writes); in a third of the cases the slice ends exactly where the
+    // allocation ends, so that a sanitizer sees any access beyond it
+    let tail = usize::from(!rng.chance(1, 3));
+    let mut buf = vec![[0u8; 64]; blocks + 1 + tail];
     for b in buf.iter_mut() {
         rng.fill(b);
     }
@@ -197,7 +200,7 @@ fn mul_case(rng: &mut Rng, out: &mut CaseOut) {
         let mut b = input.clone();
         codec::dyn_engine(kind).mul(&mut b[1..=blocks], log_m);
         out.evals += 1;
-        if b[0] != input[0] || b[blocks + 1] != input[blocks + 1] {
+        if b[0] != input[0] || (tail == 1 && b[blocks + 1] != input[blocks + 1]) {
             out.violate(
                 format!("C03:mul-outside-modified:{}", kind.name()),
                 format!("mul blocks={blocks} log_m={log_m}: engine {} wrote outside its slice", kind.name()),
